@@ -5,11 +5,13 @@ import json, os, re, shutil, subprocess, sys
 
 ROOT = "/verif/seeded"
 os.makedirs(ROOT, exist_ok=True)
-for d in sys.argv[1:]:
+for arg in sys.argv[1:]:
+    d, _, extra = arg.partition(":")          # <dir>[:C08,C01]  extra checks to run besides the property's own
     d = d.rstrip("/")
     sid = os.path.basename(d)
     meta = json.load(open(os.path.join(d, "meta.json")))
-    out = subprocess.run(["/verif/tools/seedtest.sh", d], stdout=subprocess.PIPE, stderr=subprocess.STDOUT, text=True).stdout
+    ids = [meta["property"]] + [x for x in extra.split(",") if x]
+    out = subprocess.run(["/verif/tools/seedtest.sh", d] + ids, stdout=subprocess.PIPE, stderr=subprocess.STDOUT, text=True).stdout
     out = "\n".join(l for l in out.splitlines() if not l.startswith("WARNING conda"))
     rec = {"seedtest_output": out}
     m = re.search(r"demo without change: exit (\d+)", out); rec["demo_without_change_exit"] = int(m.group(1)) if m else None
